@@ -132,7 +132,7 @@ def run_witnesses(binp, pid, verdict, sc):
 
 # ---------------------------------------------------------------- generic driver-based check
 
-def confirm_batch(binp, pid, run_args, evs, scd, tag="case"):
+def confirm_batch(binp, pid, run_args, evs, scd, tag="case", module="Trace_Query"):
     """Re-run the given mismatching cases alone in ONE fresh process and re-validate them. Returns the
     set of ids that disagree again; keeps one isolated case file per confirmed id under replays/."""
     if not evs:
@@ -140,7 +140,7 @@ def confirm_batch(binp, pid, run_args, evs, scd, tag="case"):
     ids = sorted({e["id"] for e in evs})
     out = os.path.join(scd, "confirm-%s.ndjson" % tag)
     lib.run_report([binp] + run_args + ["-only", ",".join(map(str, ids)), "-out", out])
-    mms, _ = validate_trace(out, chunk=400)
+    mms, _ = validate_trace(out, module=module, chunk=400)
     cevs = load_events(out)
     again = {cevs[m["line"]]["id"] for m in mms}
     d = os.path.join(lib.VERIF, "replays", pid)
@@ -171,10 +171,19 @@ def bad_result(ev, m):
         e2["sql"] = ev["sqls"][i]
         e2["variant"] = (ev.get("labels") or [str(i)] * (i + 1))[i]
         return e2
+    if ev.get("ev") in ("tlp", "equiv"):
+        e2 = dict(ev)
+        ress = [ev[k] for k in ("all", "t", "f", "n", "sel")] if ev["ev"] == "tlp" else ev["ress"]
+        bad = [r for r in ress if r["kind"] != "rows"]
+        e2["res"] = bad[0] if bad else ress[0]
+        e2["sql"] = " ;; ".join(ev.get("sqls", [])[1:3])
+        e2["variant"] = "%s:%s problems=%s meaning=%s" % (ev["ev"], ev.get("place") or ev.get("kind"),
+                                                         ",".join(sorted(m.get("problems", []))), sorted(m.get("meaning", [])))
+        return e2
     return ev
 
 
-def driver_check(pid, tier, gen_args, rule, chunk=80, level="model_checking", extra_cov=None, assumptions=(), mc_sample=0):
+def driver_check(pid, tier, gen_args, rule, chunk=80, level="model_checking", extra_cov=None, assumptions=(), mc_sample=0, module="Trace_Query"):
     """Generate with cmd/sqlq (gen_args), validate every recorded event with TLC against
     Trace_Query/SQLSem, confirm each disagreement in isolation, classify, write evidence."""
     t0 = time.time()
@@ -186,11 +195,11 @@ def driver_check(pid, tier, gen_args, rule, chunk=80, level="model_checking", ex
         trace = os.path.join(scd, "trace.ndjson")
         rep = lib.run_report([binp] + gen_args + ["-out", trace], timeout=3000)
         lib.log("[%s] generated %d cases in %.1fs" % (pid, rep["cases"], time.time() - t0))
-        mms, states = validate_trace(trace, chunk=chunk)
+        mms, states = validate_trace(trace, module=module, chunk=chunk)
         lib.log("[%s] validated, %d mismatches, %.1fs" % (pid, len(mms), time.time() - t0))
         evs = load_events(trace)
         bad = [evs[m["line"]] for m in mms]
-        again = confirm_batch(binp, pid, gen_args, bad, scd)
+        again = confirm_batch(binp, pid, gen_args, bad, scd, module=module)
         for m in mms:
             ev = evs[m["line"]]
             if ev["id"] not in again:
@@ -219,7 +228,7 @@ def driver_check(pid, tier, gen_args, rule, chunk=80, level="model_checking", ex
         return rc
 
 
-def replay_case(pid, path):
+def replay_case(pid, path, module="Trace_Query"):
     """Re-run a recorded case file (db + q/multi events) on the current tree and re-validate it."""
     binp = lib.build("sqlq")
     if path.endswith(".json"):
@@ -227,7 +236,7 @@ def replay_case(pid, path):
     with lib.Scratch() as scd:
         out = os.path.join(scd, "replay.ndjson")
         lib.run_report([binp, "-mode", "exec", "-in", path, "-out", out])
-        mms, _ = validate_trace(out, chunk=1000, procs=1)
+        mms, _ = validate_trace(out, module=module, chunk=1000, procs=1)
         evs = load_events(out)
         for m in mms:
             print("VIOLATION property=%s replay=%s" % (pid, path))
